@@ -911,34 +911,64 @@ class Body:
         return None
 
     # -- path obligations -----------------------------------------------------------------
+    # -- limited path sensitivity: constants assigned to flag locals ------------------------
+    def _flag_locals(self):
+        """Locals that are switched on directly and are somewhere assigned a constant
+        (`matches!`, `let ok = if .. {true} else {false}` lower to this shape)."""
+        if "flags" not in self._reach_cache:
+            sw = set()
+            for b in range(self.n):
+                t = self.term(b)
+                if t["k"] == "switch":
+                    p = op_place(t["discr"])
+                    if p is not None and not p[1]:
+                        sw.add(p[0])
+            fl = set()
+            for i, j, p, rv, _ in self.assigns():
+                if not p[1] and p[0] in sw and rv[0] == "use" and rv[1][0] == "k" and "v" in rv[1][1]:
+                    fl.add(p[0])
+            self._reach_cache["flags"] = fl
+        return self._reach_cache["flags"]
+
+    def _env_after(self, b, env):
+        fl = self._flag_locals()
+        if not fl:
+            return env
+        d = dict(env)
+        for s in self.stmts(b):
+            if s[0] == "A" and not s[1][1] and s[1][0] in fl:
+                rv = s[2]
+                if rv[0] == "use" and rv[1][0] == "k" and "v" in rv[1][1]:
+                    v = rv[1][1]["v"]
+                    d[s[1][0]] = int(v) if isinstance(v, str) else v
+                else:
+                    d.pop(s[1][0], None)
+        t = self.term(b)
+        if t["k"] == "call" and not t["dest"][1] and t["dest"][0] in d:
+            d.pop(t["dest"][0], None)
+        return tuple(sorted(d.items()))
+
+    def _feasible_succ(self, b, env):
+        t = self.term(b)
+        if t["k"] == "switch" and env:
+            p = op_place(t["discr"])
+            if p is not None and not p[1]:
+                d = dict(env)
+                if p[0] in d:
+                    val = d[p[0]]
+                    for v, tb in t["arms"]:
+                        vv = int(v) if isinstance(v, str) else v
+                        if vv == val:
+                            return [tb] if not self.is_cleanup(tb) else []
+                    return [t["otherwise"]]
+        return self.succ[b]
+
     def must_pass(self, start_blocks, through, targets=None):
-        """True iff every path from any of start_blocks to a block in `targets` (default: normal
-        returns) passes through a block in `through`. start blocks themselves are not counted as
-        'through' unless listed. Returns (ok, witness_path or None)."""
-        through = set(through)
-        targets = set(self.exits() if targets is None else targets)
-        starts = [s for s in start_blocks if s not in through]
-        # BFS recording parents for a witness
-        parent = {}
-        dq = deque()
-        for s in starts:
-            parent[s] = None
-            dq.append(s)
-        while dq:
-            b = dq.popleft()
-            if b in targets:
-                path = []
-                x = b
-                while x is not None:
-                    path.append(x)
-                    x = parent[x]
-                return False, list(reversed(path))
-            for s in self.succ[b]:
-                if s in through or s in parent:
-                    continue
-                parent[s] = b
-                dq.append(s)
-        return True, None
+        """True iff every feasible path from any of start_blocks to a block in `targets` (default:
+        normal returns) passes through a block in `through`. Start blocks are not counted as
+        'through' unless listed. Paths are pruned with constants assigned to flag locals.
+        Returns (ok, witness_path or None)."""
+        return self.must_pass_edges(start_blocks, through, (), targets)
 
     def must_pass_edges(self, start_blocks, through, discharge_edges=(), targets=None):
         """Like must_pass, but a path is also discharged by traversing one of discharge_edges
@@ -951,22 +981,30 @@ class Body:
         for s in start_blocks:
             if s in through:
                 continue
-            parent[s] = None
-            dq.append(s)
+            st = (s, ())
+            if st not in parent:
+                parent[st] = None
+                dq.append(st)
         while dq:
-            b = dq.popleft()
-            if b in targets:
+            st = dq.popleft()
+            b, env = st
+            if b in targets and (parent[st] is not None or b in start_blocks):
                 path = []
-                x = b
+                x = st
                 while x is not None:
-                    path.append(x)
+                    path.append(x[0])
                     x = parent[x]
-                return False, list(reversed(path))
-            for s in self.succ[b]:
-                if s in through or s in parent or (b, s) in discharge:
+                if not (len(path) == 1 and b in start_blocks and targets != set(self.exits()) and False):
+                    return False, list(reversed(path))
+            env2 = self._env_after(b, env)
+            for s in self._feasible_succ(b, env2):
+                if s in through or (b, s) in discharge:
                     continue
-                parent[s] = b
-                dq.append(s)
+                ns = (s, env2)
+                if ns in parent:
+                    continue
+                parent[ns] = st
+                dq.append(ns)
         return True, None
 
     def bool_edges(self, call):
